@@ -28,6 +28,9 @@ class GraphECU(UDSServer):
         self.offer_reset = offer_reset
         # the response code this ECU refuses a session change with (None: 0x7E / 0x12 as gallia's own server tells them apart)
         self.refuse_nrc = refuse_nrc
+        # session changes (from, to) that are answered busyRepeatRequest the first time they are requested
+        self.busy_once: set[tuple[int, int]] = set()
+        self.busy_fired = 0
         self.monitor = Monitor()
         self._services: dict[int, dict[UDSIsoServices, list[int] | None]] = {}
         for s, ts in self.graph.items():
@@ -46,6 +49,13 @@ class GraphECU(UDSServer):
     async def respond(self, request: service.UDSRequest) -> service.UDSResponse | None:
         before = self.state.session
         self.monitor.saw(before, request.pdu)
+        if request.pdu[:1] == b"\x10" and len(request.pdu) == 2 and (before, request.pdu[1] & 0x7F) in self.busy_once:
+            self.busy_once.discard((before, request.pdu[1] & 0x7F))
+            self.busy_fired += 1
+            resp: Any = service.NegativeResponse(0x10, UDSErrorCodes(0x21))
+            if hasattr(self, "replies"):
+                self.replies.append((before, bytes(request.pdu), resp.pdu))
+            return resp
         resp = await super().respond(request)
         if (self.refuse_nrc is not None and request.pdu[:1] == b"\x10" and len(request.pdu) == 2 and isinstance(resp, service.NegativeResponse)
                 and int(resp.response_code) in (0x12, 0x7E)):
